@@ -139,15 +139,193 @@ fn check_config(ctx: &mut Ctx, dim: usize, max_size: usize) {
     }
 }
 
+/// every connected valid D-set reachable from `ops` by one local move (join two i-fixed chambers, split an
+/// i-edge, re-pair two i-edges, move an i-edge end to an i-fixed chamber, attach a new chamber by an i-edge);
+/// candidates are validated here (involutive by construction, commuting, connected), so each one is a D-set
+/// the statement says must be isomorphic to an output
+fn neighbours(ops: &Vec<Vec<usize>>, max_size: usize, f: &mut dyn FnMut(usize, Vec<usize>)) {
+    let n = ops[0].len();
+    let dim = ops.len() - 1;
+    let mut emit = |cand: Vec<Vec<usize>>| {
+        let s = RS::from_ops(cand);
+        if s.commutes() {
+            if let Some(c) = bfs_code(&s.ops) {
+                f(s.n, c);
+            }
+        }
+    };
+    for i in 0..=dim {
+        let fixed: Vec<usize> = (0..n).filter(|&d| ops[i][d] == d).collect();
+        let edges: Vec<(usize, usize)> = (0..n).filter(|&d| ops[i][d] > d).map(|d| (d, ops[i][d])).collect();
+        for (x, &a) in fixed.iter().enumerate() {
+            for &b in &fixed[x + 1..] {
+                let mut c = ops.clone();
+                c[i][a] = b;
+                c[i][b] = a;
+                emit(c);
+            }
+        }
+        for &(a, b) in &edges {
+            let mut c = ops.clone();
+            c[i][a] = a;
+            c[i][b] = b;
+            emit(c);
+            for &z in &fixed {
+                for (p, q) in [(a, b), (b, a)] {
+                    // p keeps the edge, now to z; q becomes fixed
+                    let mut c = ops.clone();
+                    c[i][p] = z;
+                    c[i][z] = p;
+                    c[i][q] = q;
+                    emit(c);
+                }
+            }
+        }
+        for (x, &(a, b)) in edges.iter().enumerate() {
+            for &(c0, e) in &edges[x + 1..] {
+                for (p, q) in [(c0, e), (e, c0)] {
+                    let mut c = ops.clone();
+                    c[i][a] = p;
+                    c[i][p] = a;
+                    c[i][b] = q;
+                    c[i][q] = b;
+                    emit(c);
+                }
+            }
+        }
+        if n < max_size {
+            for &a in &fixed {
+                let mut c: Vec<Vec<usize>> = ops.iter().map(|o| o.iter().cloned().chain(std::iter::once(n)).collect()).collect();
+                c[i][a] = n;
+                c[i][n] = a;
+                emit(c);
+            }
+        }
+    }
+}
+
+const LARGE_CHUNKS: usize = 16;
+
+/// Configurations beyond the reach of the brute-force oracle: the outputs must still be valid, commuting,
+/// connected, consecutively numbered and pairwise non-isomorphic, agree with the oracle on the sizes it
+/// reaches, and be CLOSED under local moves: every valid connected D-set one move away from an output is a
+/// D-set of at most the given size, so the statement puts its class in the list.  (A necessary condition for
+/// completeness; sufficient whenever the move graph on classes is connected, which the oracle-sized
+/// configurations confirm: see the counter `closure_components_checked`.)
+fn check_large(ctx: &mut Ctx, dim: usize, max_size: usize, chunk: usize, oracle_max: usize) {
+    let case = json!({"dim": dim, "max_size": max_size, "large": true, "chunk": chunk});
+    ctx.announce(&case);
+    ctx.count(true);
+    if chunk == 0 {
+        ctx.sample(case.clone());
+    }
+    let w = (dim * 100 + max_size) as u64 + 1000;
+    let outs = match ctx.guard(|| DSets::new(dim, max_size).collect::<Vec<_>>()) {
+        Ok(v) => v,
+        Err(m) => {
+            if chunk == 0 {
+                ctx.violation("panic:DSets", case, m, w);
+            }
+            return;
+        }
+    };
+    let mut got: Vec<BTreeSet<Vec<usize>>> = vec![BTreeSet::new(); max_size + 1];
+    let mut sets: Vec<Option<RS>> = vec![];
+    for (k, ds) in outs.iter().enumerate() {
+        let n = ds.size();
+        let mut ok = None;
+        if ds.dim() != dim || n < 1 || n > max_size {
+            if chunk == 0 {
+                ctx.violation("size-dim", case.clone(), format!("output {} has dim {} size {}", ds, ds.dim(), n), w);
+            }
+        } else {
+            if chunk == 0 && ds.set_count() != k + 1 {
+                ctx.violation("numbering", case.clone(), format!("output number {} carries counter {}", k + 1, ds.set_count()), w);
+            }
+            match from_dset(ds) {
+                None => {
+                    if chunk == 0 {
+                        ctx.violation("incomplete", case.clone(), format!("output {} is not complete", ds), w);
+                    }
+                }
+                Some(s) => {
+                    if !s.is_involutive() {
+                        if chunk == 0 {
+                            ctx.violation("invalid", case.clone(), format!("output {}: an operation is not an involution", ds), w);
+                        }
+                    } else {
+                        if chunk == 0 && !s.commutes() {
+                            ctx.violation("not-commuting", case.clone(), format!("output {}: operations with distant indices do not commute", ds), w);
+                        }
+                        match bfs_code(&s.ops) {
+                            None => {
+                                if chunk == 0 {
+                                    ctx.violation("disconnected", case.clone(), format!("output {} is not connected", ds), w);
+                                }
+                            }
+                            Some(c) => {
+                                if !got[n].insert(c) && chunk == 0 {
+                                    ctx.violation("duplicate", case.clone(), format!("output {} is isomorphic to an earlier output", ds), w);
+                                }
+                                if s.commutes() {
+                                    ok = Some(s);
+                                }
+                            }
+                        }
+                    }
+                }
+            }
+        }
+        sets.push(ok);
+    }
+    if chunk == 0 {
+        ctx.ops(outs.len() as u64);
+        ctx.add("large_outputs", outs.len() as i64);
+        for n in 1..=oracle_max.min(max_size) {
+            let (exp, tuples) = oracle(dim, n);
+            ctx.add("oracle_tuples", tuples as i64);
+            if got[n] != exp {
+                ctx.violation("class-set", case.clone(), format!("size {}: generator yields {} classes, oracle {}", n, got[n].len(), exp.len()), w);
+            }
+        }
+    }
+    if ctx.nviolations() > 0 {
+        return;
+    }
+    // closure under local moves, this chunk's share of the outputs
+    let mut missing: Option<(String, usize)> = None;
+    let mut tested = 0u64;
+    for (k, s) in sets.iter().enumerate() {
+        if k % LARGE_CHUNKS != chunk {
+            continue;
+        }
+        if let Some(s) = s {
+            neighbours(&s.ops, max_size, &mut |n, code| {
+                tested += 1;
+                if !got[n].contains(&code) && missing.is_none() {
+                    missing = Some((format!("{}", outs[k]), n));
+                }
+            });
+        }
+    }
+    ctx.ops(tested);
+    ctx.add("closure_neighbours_tested", tested as i64);
+    if let Some((from, n)) = missing {
+        ctx.violation("closure", case.clone(), format!("a valid connected D-set of size {} one local move away from output {} is isomorphic to no output", n, from), w);
+    }
+}
+
 fn run(ctx: &mut Ctx) {
     let tier = ctx.tier;
     // heavy configurations first so that they land on different workers
     let mut configs = vec![];
-    for dim in 1..=3usize {
+    for dim in 1..=5usize {
         let maxn = match dim {
             1 => tier.pick(9, 10),
             2 => tier.pick(7, 8),
-            _ => tier.pick(6, 7),
+            3 => tier.pick(6, 7),
+            4 => tier.pick(5, 5),
+            _ => tier.pick(4, 5),
         };
         for m in 1..=maxn {
             configs.push((dim, m));
@@ -159,10 +337,34 @@ fn run(ctx: &mut Ctx) {
             check_config(ctx, dim, m);
         }
     }
+    if ctx.nviolations() > 0 {
+        return;
+    }
+    for (dim, m, oracle_max) in large_configs(tier) {
+        for chunk in 0..LARGE_CHUNKS {
+            if ctx.take() {
+                check_large(ctx, dim, m, chunk, oracle_max);
+            }
+        }
+    }
+}
+
+/// (dimension, max_size, largest size compared with the brute-force oracle)
+fn large_configs(tier: Tier) -> Vec<(usize, usize, usize)> {
+    let lim = std::env::var("VERIF_C06_LARGE").ok().and_then(|v| v.parse::<usize>().ok());
+    let mut v = vec![];
+    for (dim, q, t, om) in [(1usize, 13usize, 16usize, 8usize), (2, 10, 12, 6), (3, 9, 11, 5), (4, 8, 10, 4), (5, 7, 9, 4)] {
+        v.push((dim, lim.unwrap_or(tier.pick(q, t)), om));
+    }
+    v
 }
 
 fn replay(ctx: &mut Ctx, case: &Value) {
     let dim = case["dim"].as_u64().unwrap_or(2) as usize;
     let m = case["max_size"].as_u64().unwrap_or(3) as usize;
+    if case["large"].as_bool() == Some(true) {
+        check_large(ctx, dim, m, case["chunk"].as_u64().unwrap_or(0) as usize, 4);
+        return;
+    }
     check_config(ctx, dim, m);
 }
